@@ -20,15 +20,18 @@ RejectItems(e, items) ==
 Step(e) ==
   CASE e.op = "decide" ->
          LET t == now + e.dt
-             d == Decide(AllowedSet, cfg.minconf, cfg.period, lastMode, lastTime, t, e.raw, e.conf)
+             \* a confidence one float below or above conf/100 (e.eps): compared in half steps
+             c2 == 2 * e.conf + (IF "eps" \in DOMAIN e THEN e.eps ELSE 0)
+             m2 == 2 * cfg.minconf
+             d == Decide(AllowedSet, m2, cfg.period, lastMode, lastTime, t, e.raw, c2)
              \* the property's clauses, evaluated on what the real selector returned
-             passesGates == e.conf >= cfg.minconf /\ IsAllowedIn(AllowedSet, e.raw)
+             passesGates == c2 >= m2 /\ IsAllowedIn(AllowedSet, e.raw)
              items ==
                (IF e.res # "ok" THEN <<[diag |-> "selector-panic", msg |-> e.msg]>> ELSE <<>>)
                \o (IF e.res = "ok" /\ ~(e.outmode = "none" \/ IsAllowedIn(AllowedSet, e.outmode))
                    THEN <<[diag |-> "mode-not-allowed", mode |-> e.outmode]>> ELSE <<>>)
-               \o (IF e.res = "ok" /\ e.conf < cfg.minconf /\ e.outmode # "none"
-                   THEN <<[diag |-> "low-confidence-not-none", mode |-> e.outmode, conf |-> e.conf]>> ELSE <<>>)
+               \o (IF e.res = "ok" /\ c2 < m2 /\ e.outmode # "none"
+                   THEN <<[diag |-> "low-confidence-not-none", mode |-> e.outmode, conf |-> e.conf, eps |-> c2 - 2 * e.conf]>> ELSE <<>>)
                \o (IF e.res = "ok" /\ (e.outconf < 0 \/ e.outconf > 100)
                    THEN <<[diag |-> "confidence-out-of-range", conf |-> e.outconf]>> ELSE <<>>)
                \o (IF e.res = "ok" /\ passesGates /\ lastPassTime # -1 /\ t - lastPassTime < cfg.period /\ e.outmode # lastPassMode
